@@ -12,4 +12,5 @@ SIGS = {
     'api_c18_standardize': ([L(T('str', 'str')), 'bool', L(T('nat', 'str', O('str'))), STRS, COLS], T(STRS, COLS)),
     'api_c18_std_columns': (['bool'], L(T('str', 'nat'))),
     'api_c18_multimerge': (['bool', STRS, 'bool', L(T(STRS, COLS))], T('nat', STRS, COLS)),
+    'api_c18_multimerge_m': (['bool', STRS, 'bool', L(T(STRS, COLS))], T('nat', STRS, COLS)),
 }
